@@ -1,0 +1,64 @@
+// Licensed to Elasticsearch B.V. under one or more contributor
+// license agreements. See the NOTICE file distributed with
+// this work for additional information regarding copyright
+// ownership. Elasticsearch B.V. licenses this file to you under
+// the Apache License, Version 2.0 (the "License"); you may
+// not use this file except in compliance with the License.
+// You may obtain a copy of the License at
+//
+//     http://www.apache.org/licenses/LICENSE-2.0
+//
+// Unless required by applicable law or agreed to in writing,
+// software distributed under the License is distributed on an
+// "AS IS" BASIS, WITHOUT WARRANTIES OR CONDITIONS OF ANY
+// KIND, either express or implied.  See the License for the
+// specific language governing permissions and limitations
+// under the License.
+
+//go:build linux && verif
+// +build linux,verif
+
+package seccomp
+
+import (
+	"syscall"
+	"unsafe"
+)
+
+// SeccompCallVerif describes one invocation of the seccomp(2) wrapper (verification builds only).
+type SeccompCallVerif struct {
+	Op     uintptr
+	Flags  uint32
+	Tid    int                  // OS thread that is about to enter the kernel
+	HasArg bool                 // a sock_fprog was passed
+	Len    uint16               // sock_fprog.len
+	Filter []syscall.SockFilter // copy of the Len instructions sock_fprog.filter points to
+}
+
+// ObserveSeccompVerif, when set, is called by the seccomp(2) wrapper right before the system call.
+var ObserveSeccompVerif func(SeccompCallVerif)
+
+// SchedPointVerif, when set, is called by LoadFilter between the prctl(2) and the seccomp(2) calls.
+var SchedPointVerif func()
+
+func verifObserveSeccomp(op uintptr, flags FilterFlag, uargs unsafe.Pointer) {
+	if ObserveSeccompVerif == nil {
+		return
+	}
+	c := SeccompCallVerif{Op: op, Flags: uint32(flags), Tid: syscall.Gettid()}
+	if uargs != nil && op == seccompSetModeFilter {
+		prog := (*syscall.SockFprog)(uargs)
+		c.HasArg = true
+		c.Len = prog.Len
+		if prog.Filter != nil && prog.Len > 0 {
+			c.Filter = append(c.Filter, unsafe.Slice(prog.Filter, int(prog.Len))...)
+		}
+	}
+	ObserveSeccompVerif(c)
+}
+
+func verifSchedPoint() {
+	if SchedPointVerif != nil {
+		SchedPointVerif()
+	}
+}
